@@ -241,6 +241,25 @@ func negotiate(c *core.Ctx) {
 		if !containsOf(factsOf(s), sent, false) {
 			probs = append(probs, "an error exit that is not the unsupported-compression branch")
 		}
+		// an absent or "identity" request encoding is never a reason to reject
+		notEmpty, notIdentity := false, false
+		for _, f := range s.Facts {
+			l, op, r, ok := astx.CompareOp(f.Expr)
+			if !ok || astx.ObjOf(info, l) != types.Object(sent) {
+				continue
+			}
+			if v, isC := astx.ConstString(info, r); isC && (op == token.NEQ) == f.Pol {
+				switch v {
+				case "":
+					notEmpty = true
+				case "identity":
+					notIdentity = true
+				}
+			}
+		}
+		if !notEmpty || !notIdentity {
+			probs = append(probs, fmt.Sprintf("a request is rejected without having established sent != \"\" (%v) and sent != identity (%v)", notEmpty, notIdentity))
+		}
 	}
 	wk.Walk()
 	trunc := wk.Truncated
@@ -894,16 +913,27 @@ func poolHygiene(c *core.Ctx) {
 			putsLo, putsHi := putCounter.ofState(s, ret, 2)
 			getFailed := false
 			// the path returned right after a failed get (err != nil of the get)
-			for _, st := range s.Steps {
+			for gi, st := range s.Steps {
 				if as, ok := st.(*ast.AssignStmt); ok && len(as.Rhs) == 1 && len(as.Lhs) == 2 {
 					if call, ok := as.Rhs[0].(*ast.CallExpr); ok {
 						if f := astx.CalleeFunc(info, call); f != nil && strings.HasPrefix(f.Name(), "get") {
 							errObj := astx.ObjOf(info, as.Lhs[1])
-							if s.HasFact(func(e ast.Expr, pol bool) bool {
-								l, op, r, ok := astx.CompareOp(e)
-								return ok && astx.IsNil(info, r) && astx.ObjOf(info, l) == errObj && (op == token.NEQ) == pol
-							}) && putsHi == 0 {
-								getFailed = true
+							// the test of the get's own error: taken after the get and before err is assigned again
+							next := len(s.Steps) + 1
+							for j := gi + 1; j < len(s.Steps); j++ {
+								if as2, ok := s.Steps[j].(*ast.AssignStmt); ok {
+									for _, l := range as2.Lhs {
+										if astx.ObjOf(info, l) == errObj && j < next {
+											next = j
+										}
+									}
+								}
+							}
+							for _, tf := range s.Taken {
+								l, op, r, ok := astx.CompareOp(tf.Expr)
+								if ok && tf.At > gi && tf.At <= next && astx.IsNil(info, r) && astx.ObjOf(info, l) == errObj && (op == token.NEQ) == tf.Pol {
+									getFailed = true
+								}
 							}
 						}
 					}
@@ -912,6 +942,9 @@ func poolHygiene(c *core.Ctx) {
 			n++
 			if getsLo != 1 || getsHi != 1 {
 				probs = append(probs, fmt.Sprintf("%d..%d get calls on one path", getsLo, getsHi))
+			}
+			if getFailed && putsHi != 0 {
+				probs = append(probs, "an object whose get (Reset) failed is handed to put, which Closes and pools it: a decompressor that never saw a valid header is not usable")
 			}
 			if !getFailed && (putsLo != 1 || putsHi != 1) {
 				probs = append(probs, fmt.Sprintf("a path after a successful get passes %d..%d put calls, helpers included (the object leaks or is pooled twice)", putsLo, putsHi))
